@@ -50,7 +50,8 @@ RULE = (
     "equal to all dims (no feature dim left); each dimension of each item dropped (isel with and without scalar coordinate, mean), renamed, one added; "
     "each feature coordinate shifted (disjoint, overlapping), replaced by re-ordered different values, and given the fitted labels in another order "
     "(reversed, rolled, relabelled; also on a DataArray with ONE feature dim); Dataset variables (Dataset, 3-variable Dataset, Dataset item of a list) reversed / rolled / "
-    "with an additional variable first or in the middle; rotator n_modes above the model's modes; Dataset variable dropped / renamed / stripped "
+    "with an additional variable first or in the middle; rotator n_modes above the model's modes; integer n_pca_modes / init_pca_modes above min(n_samples, n_features) of a field (rank+1, 500; scalar, "
+    "only X, only Y) for all twelve cross-set classes, POP, OPA, ExtendedEOF and multi.CCA; Dataset variable dropped / renamed / stripped "
     "of one dim; list length -1 / +1; n_modes in {0, -1, rank+1, 'three', 2.5, None}; alpha < 0 (scalar and one of a pair); unknown solver; score arrays "
     "with unknown mode labels, without a mode dimension, of wrong type; cross-set / multi-view fields with different sample counts. "
     "A case is non-trivial when the un-mutated call returned a non-empty finite result and the mutated call was executed and refused"
@@ -95,6 +96,10 @@ ROT_EXTRA = {
 }
 ROT_ALL = {**ROT, **ROT_EXTRA}
 FAMILY = {"ComplexEOF": "EOF", "HilbertEOF": "EOF", "ComplexCPCCA": "CPCCA", "HilbertCPCCA": "CPCCA", "ComplexMCA": "MCA", "HilbertMCA": "MCA"}
+# classes enumerated for the PCA-pre-reduction option only ("CrossCCA" is xeofs.cross.CCA; "CCA" in these tables is xeofs.multi.CCA)
+CROSS_EXTRA = ("CrossCCA", "RDA", "ComplexCPCCA", "ComplexMCA", "ComplexCCA", "ComplexRDA", "HilbertCPCCA", "HilbertMCA", "HilbertCCA", "HilbertRDA")
+SINGLE_EXTRA = ("OPA", "ExtendedEOF")
+FAMILY.update({m: "MCA" for m in ("CrossCCA", "RDA", "ComplexCCA", "ComplexRDA", "HilbertCCA", "HilbertRDA")})  # alpha is fixed by the class
 
 
 def _base(model):
@@ -440,6 +445,24 @@ def cases(tier, seed):
         for cont in ["da"] if tier == "quick" else ["da", "ds", "list"]:
             for v in NMODES_FAULTS_ROT:
                 add(model, cont, "plain", "ctor_fit", dict(fault="n_modes", how=v))
+    # ---------------- the PCA pre-reduction: an INTEGER number of PCs above the rank min(n_samples, n_features) of the field
+    # (a second rank check, in preprocessing.PCA / linalg.SVD for the cross-set classes and POP, in the inner EOF for the others)
+    conts_pca = ["da"] if tier == "quick" else ["da", "ds", "list"]
+    for model in list(CROSS) + list(CROSS_EXTRA):
+        for cont in conts_pca:
+            for v in ("rank+1", "large"):
+                for form in ("scalar", "only_X", "only_Y"):
+                    add(model, cont, "pca", "ctor_fit", dict(fault="n_pca_modes", how=v, form=form))
+            if model in CROSS:
+                add(model, cont, "pca", "ctor_fit!valid", dict(fault="n_pca_modes_equals_rank"))
+    for model in ("POP",) + SINGLE_EXTRA:
+        for cont in conts_pca:
+            for v in ("rank+1", "large"):
+                add(model, cont, "pca", "ctor_fit", dict(fault="n_pca_modes", how=v, form="scalar"))
+    for cont in conts_pca:
+        for v in ("rank+1", "large"):
+            for form in ("scalar", "only_Y"):
+                add("CCA", cont, "pca", "ctor_fit", dict(fault="n_pca_modes", how=v, form=form))
     # ---------------- the `normalized` switch: every entry point that has one is enumerated a second time with
     # normalized=True (scores are multiplied / divided by the stored norms BEFORE the algorithm's own label lookup,
     # a different code path for mode-label and mode-dimension faults); entries without the switch are not repeated
@@ -476,6 +499,8 @@ def _in_quick(c):
         return c["how"] in ("reverse", "roll", "reverse_extra_middle") and (c["container"] != "lds" or c["how"] == "reverse")
     if c["model"] in ROT_EXTRA:
         return c["how"] in ("0", "three", "model+1", "large")
+    if c["fault"] in ("n_pca_modes", "n_pca_modes_equals_rank"):
+        return True
     heavy = c["model"] in ("MCARotator", "EOFRotator", "SparsePCA", "POP", "MCA")  # MCA = CPCCA(alpha=1): same code paths
     if heavy:
         if c.get("how") in ("isel_keep", "len1", "overlap", "list_of_ndarrays", "empty_list", "empty_string", "partly_unknown", "all_beyond", "roll", "relabel_reverse"):
@@ -505,7 +530,7 @@ def _in_quick(c):
     return True
 
 
-_MODEL_ORDER = {m: i for i, m in enumerate(list(SINGLE) + list(CROSS) + list(ROT) + list(MULTI) + list(ROT_EXTRA))}
+_MODEL_ORDER = {m: i for i, m in enumerate(list(SINGLE) + list(CROSS) + list(ROT) + list(MULTI) + list(ROT_EXTRA) + list(CROSS_EXTRA) + list(SINGLE_EXTRA))}
 
 
 def _simplicity(c):
@@ -540,6 +565,10 @@ def _rank(model, cont, conf):
 def ctor_kwargs(model, conf):
     base = _fam(model)
     kw = dict(n_modes=K)
+    if base == "OPA":
+        return dict(n_modes=K, tau_max=2, n_pca_modes=3, random_state=5, solver="full")
+    if base == "ExtendedEOF":
+        return dict(n_modes=K, tau=1, embedding=2, n_pca_modes=3, random_state=5, solver="full")
     if base in SINGLE:
         kw.update(random_state=5, solver="full")
         if base == "SparsePCA":
@@ -576,6 +605,14 @@ def make(model_name, kw):
         "EOFRotator": xe.single.EOFRotator,
         "MCARotator": xe.cross.MCARotator,
         "CCA": xe.multi.CCA,
+        "OPA": xe.single.OPA,
+        "ExtendedEOF": xe.single.ExtendedEOF,
+        "CrossCCA": xe.cross.CCA,
+        "RDA": xe.cross.RDA,
+        "ComplexCCA": xe.cross.ComplexCCA,
+        "ComplexRDA": xe.cross.ComplexRDA,
+        "HilbertCCA": xe.cross.HilbertCCA,
+        "HilbertRDA": xe.cross.HilbertRDA,
         "ComplexEOF": xe.single.ComplexEOF,
         "HilbertEOF": xe.single.HilbertEOF,
         "ComplexCPCCA": xe.cross.ComplexCPCCA,
@@ -601,7 +638,7 @@ class Call:
         self.model, self.cont, self.conf = model, cont, conf
         self.base = _base(model)
         fam = _fam(model)
-        self.kind = "single" if fam in SINGLE else "cross" if fam in CROSS else "multi"
+        self.kind = "single" if (fam in SINGLE or fam in SINGLE_EXTRA) else "cross" if fam in CROSS else "multi"
         self.is_rot = model in ROT_ALL
         self.entry = case["entry"].split("!")[0]
         self.ctor = ctor_kwargs(model, conf)
@@ -912,6 +949,20 @@ def apply_fault(call, case, kfit=None):
             if call.is_rot:
                 call.ctor["n_modes"] = _rank(call.model, call.cont, call.conf)
             target["n_modes"] = _rank(call.model, call.cont, call.conf)
+        elif kind in ("n_pca_modes", "n_pca_modes_equals_rank"):
+            rx = min(N_FIT, sum(_npieces_cols("X", call.cont)))
+            ry = min(N_FIT, sum(_npieces_cols("Y", "da")))
+            rz = min(N_FIT, sum(_npieces_cols("Z", "da")))
+            big = (lambda r: r + 1) if f.get("how") == "rank+1" else (lambda r: 500)
+            ok = 3  # the valid call's number of PCs
+            if kind == "n_pca_modes_equals_rank":
+                call.ctor["n_pca_modes"] = [rx, ry]
+            elif call.kind == "cross":
+                call.ctor["n_pca_modes"] = {"scalar": big(max(rx, ry)), "only_X": [big(rx), ok], "only_Y": [ok, big(ry)]}[f["form"]]
+            elif call.kind == "multi":
+                call.ctor["init_pca_modes"] = {"scalar": big(max(rx, ry, rz)), "only_Y": [ok, big(ry), ok]}[f["form"]]
+            else:
+                call.ctor["n_pca_modes"] = big(rx)
         elif kind == "unknown_solver":
             call.ctor["solver"] = "lanczos-ish" if f["how"] == "string" else None
         elif kind == "negative_alpha":
@@ -1068,7 +1119,7 @@ def _run_case(case, seed):
     is_control = case["entry"].endswith("!valid")
     entry = case["entry"].split("!")[0]
     feats = dict(fault=case["fault"], entry=entry)
-    if case["fault"] == "n_modes":
+    if case["fault"] in ("n_modes", "n_pca_modes"):
         feats["value"] = case["how"]
     if case.get("normalized"):
         feats["normalized"] = True
